@@ -40,6 +40,25 @@ type Prog struct {
 	// Typedef: every scalar type is reached through a typedef alias (`typedef binary T_binary`), the way
 	// real IDLs name their types; descriptors must not depend on the spelling of the type name.
 	Typedef bool
+	// Split: the struct types below each field of the root struct are declared in a file of their own
+	// (inc<i>.thrift, included by the main file), with type names that restart in every file (N0, N1, ...),
+	// so that the same unqualified name denotes different types in different files.
+	Split bool
+	incs  map[string]string
+}
+
+// Source is the whole program text: the main file followed by the included files of a split program.
+func (p *Prog) Source() string {
+	src := p.IDL()
+	var ks []string
+	for k := range p.incs {
+		ks = append(ks, k)
+	}
+	sort.Strings(ks)
+	for _, k := range ks {
+		src += "// ---- " + k + "\n" + p.incs[k]
+	}
+	return src
 }
 
 // RawProg is a program given as hand-written IDL text (recursive types cannot be tbin.Shapes).
@@ -172,27 +191,40 @@ func (p *Prog) IDL() string {
 	if p.idl != "" || p.raw {
 		return p.idl
 	}
-	var defs, tdefs []string
-	typedefs := map[string]bool{}
-	names := map[*tbin.Shape]string{}
-	var tname func(s *tbin.Shape) string
-	tname = func(s *tbin.Shape) string {
+	split := p.Split && !p.useBase && p.Root.T == tbin.STRUCT
+	// file -1 = main; file i >= 0 = inc<i>.thrift (split mode: everything below root field i)
+	defs := map[int][]string{}
+	tdefs := map[int][]string{}
+	typedefs := map[int]map[string]bool{}
+	names := map[int]map[*tbin.Shape]string{}
+	var tname func(s *tbin.Shape, file int, fromMain bool) string
+	tname = func(s *tbin.Shape, file int, fromMain bool) string {
 		switch s.T {
 		case tbin.LIST:
-			return "list<" + tname(s.Elem) + ">"
+			return "list<" + tname(s.Elem, file, fromMain) + ">"
 		case tbin.SET:
-			return "set<" + tname(s.Elem) + ">"
+			return "set<" + tname(s.Elem, file, fromMain) + ">"
 		case tbin.MAP:
-			return "map<" + tname(s.Key) + "," + tname(s.Elem) + ">"
+			return "map<" + tname(s.Key, file, fromMain) + "," + tname(s.Elem, file, fromMain) + ">"
 		case tbin.STRUCT:
-			if n, ok := names[s]; ok {
-				return n
+			if names[file] == nil {
+				names[file] = map[*tbin.Shape]string{}
 			}
-			n := fmt.Sprintf("S%d", len(names))
+			qual := ""
+			if file >= 0 && fromMain {
+				qual = fmt.Sprintf("inc%d.", file)
+			}
+			if n, ok := names[file][s]; ok {
+				return qual + n
+			}
+			n := fmt.Sprintf("S%d", len(names[file]))
+			if file >= 0 {
+				n = fmt.Sprintf("N%d", len(names[file]))
+			}
 			if s == p.Root {
 				n = "Root"
 			}
-			names[s] = n
+			names[file][s] = n
 			var body []string
 			for i, f := range s.Fields {
 				x := p.FX(s, i)
@@ -210,7 +242,11 @@ func (p *Prog) IDL() string {
 				case 2:
 					tn = "base.BaseResp"
 				default:
-					tn = tname(f.S)
+					if split && s == p.Root {
+						tn = tname(f.S, i, true)
+					} else {
+						tn = tname(f.S, file, false)
+					}
 				}
 				line := fmt.Sprintf("  %d: %s%s %s", f.ID, r, tn, f.FName())
 				if x.DefLit != "" {
@@ -229,26 +265,47 @@ func (p *Prog) IDL() string {
 			if a := p.structAnn[s]; len(a) > 0 {
 				sa = " (" + strings.Join(a, ", ") + ")"
 			}
-			defs = append(defs, fmt.Sprintf("struct %s {\n%s\n}%s\n", n, strings.Join(body, "\n"), sa))
-			return n
+			defs[file] = append(defs[file], fmt.Sprintf("struct %s {\n%s\n}%s\n", n, strings.Join(body, "\n"), sa))
+			return qual + n
 		}
 		if p.Typedef {
 			n := "T_" + scalarName(s)
-			if !typedefs[n] {
-				typedefs[n] = true
-				tdefs = append(tdefs, fmt.Sprintf("typedef %s %s\n", scalarName(s), n))
+			if file >= 0 && fromMain {
+				// a scalar directly under the root: declared in the main file
+				file = -1
+			}
+			if typedefs[file] == nil {
+				typedefs[file] = map[string]bool{}
+			}
+			if !typedefs[file][n] {
+				typedefs[file][n] = true
+				tdefs[file] = append(tdefs[file], fmt.Sprintf("typedef %s %s\n", scalarName(s), n))
 			}
 			return n
 		}
 		return scalarName(s)
 	}
-	root := tname(p.Root)
-	defs = append(tdefs, defs...)
+	root := tname(p.Root, -1, false)
 	hdr := "namespace go verif\n"
 	if p.useBase {
 		hdr = "include \"base.thrift\"\n" + hdr
 	}
-	p.idl = hdr + strings.Join(defs, "") + fmt.Sprintf("service Svc {\n  %s M(1: %s req)\n}\n", root, root)
+	p.incs = nil
+	var files []int
+	for f := range defs {
+		if f >= 0 {
+			files = append(files, f)
+		}
+	}
+	sort.Ints(files)
+	for _, f := range files {
+		if p.incs == nil {
+			p.incs = map[string]string{}
+		}
+		p.incs[fmt.Sprintf("a/b/inc%d.thrift", f)] = "namespace go verif\n" + strings.Join(append(tdefs[f], defs[f]...), "")
+		hdr = fmt.Sprintf("include \"inc%d.thrift\"\n", f) + hdr
+	}
+	p.idl = hdr + strings.Join(append(tdefs[-1], defs[-1]...), "") + fmt.Sprintf("service Svc {\n  %s M(1: %s req)\n}\n", root, root)
 	return p.idl
 }
 
@@ -271,7 +328,7 @@ func (p *Prog) Descs(o thrift.Options) (req, resp *thrift.TypeDescriptor, err er
 // content but distinct objects, as two services loading the same IDL would hold).
 func (p *Prog) DescsN(o thrift.Options, n int) (req, resp *thrift.TypeDescriptor, err error) {
 	idl := p.IDL()
-	k := fmt.Sprintf("%d|%v|%s", n, o, idl)
+	k := fmt.Sprintf("%d|%v|%s", n, o, p.Source())
 	descMu.Lock()
 	defer descMu.Unlock()
 	if d, ok := descCache[k]; ok {
@@ -283,6 +340,12 @@ func (p *Prog) DescsN(o thrift.Options, n int) (req, resp *thrift.TypeDescriptor
 	var inc map[string]string
 	if p.useBase {
 		inc = map[string]string{"a/b/base.thrift": baseIDL}
+	}
+	for k, v := range p.incs {
+		if inc == nil {
+			inc = map[string]string{}
+		}
+		inc[k] = v
 	}
 	svc, err := o.NewDescritorFromContent(context.Background(), "a/b/main.thrift", idl, inc, false)
 	if err != nil {
